@@ -210,9 +210,9 @@ Verify ==
              \* repaired code (db.go verifyWithExecutor): a frame carrying the old salts right after the cursor, or a
              \* header salt that is not the old one plus one, forces a snapshot from the new header
              cont == FixF2 /\ ((X + 1 <= Len(wal) /\ wal[X+1].gen = last.gen) \/ hdrGen # last.gen + 1)
-         IN IF cont /\ ~saltMatch THEN [snap |-> TRUE, off |-> 0, gen |-> hdrGen, clr |-> FALSE, prevC |-> pc0]
-            ELSE IF ~lpm THEN [snap |-> TRUE, off |-> X, gen |-> last.gen, clr |-> FALSE, prevC |-> pc0]
+         IN IF ~lpm THEN [snap |-> TRUE, off |-> X, gen |-> last.gen, clr |-> FALSE, prevC |-> pc0]
             ELSE IF saltMatch THEN [snap |-> FALSE, off |-> X, gen |-> last.gen, clr |-> FALSE, prevC |-> pc0]
+            ELSE IF cont THEN [snap |-> TRUE, off |-> 0, gen |-> hdrGen, clr |-> FALSE, prevC |-> pc0]
             ELSE
               LET idxs == {i \in 1..Len(wal) : \A j \in 1..(i-1) : wal[j].gen # last.gen}
                   seen == {wal[i].gen : i \in idxs}
